@@ -577,16 +577,20 @@ def check_c09(tier, t0):
     progs += [("nf_bool_operand", corpus._loop("ka = 1 < 2\nd0.Setting = ka\nkb = not 0\nd1.Setting = kb\nd2.Setting = (3 == 3) + d0.On")),
               ("nf_inlined_float_arg", corpus.HEADER + "def fa(xa):\n    return xa * 2\ndef fb(xa, xb):\n    d2.Setting = xa + xb\nwhile True:\n    d0.Setting = fa(0.00001)\n    fb(1e-7, 123456789.5)\n    yield_()\n"),
               ("nf_long_lines", corpus.HEADER + "".join("d%d.Setting = d%d.Temperature * 1.000001 + d%d.Pressure  # a long trailing comment to make this line long enough %d\n" % (i % 6, (i + 1) % 6, (i + 2) % 6, i) for i in range(4))),
+              ("br_long_remarks", [s for n, s in corpus.family("branches") if n == "br_long_remarks"][0]),
               ("nf_undefined", corpus._loop("d1.Setting = nothere + 1\nd2.Setting = nothere")),
               ("nf_bitnot", corpus._loop("d1.Setting = ~d0.Setting")), ("nf_unary", corpus._loop("va = d0.Setting\nd1.Setting = -va\nd1.On = not va"))]
     vecs = [cw.REF, dict(cw.opts(inline_functions=True), append_version=True),
             cw.opts(original_code_as_comment=True, generated_comments=True, append_version=True),
-            cw.opts(inline_functions=True, remove_labels=True, compact=True, append_version=True)]
+            cw.opts(inline_functions=True, remove_labels=True, compact=True, append_version=True),
+            cw.opts(original_code_as_comment=True, remove_labels=True, append_version=True)]
     if tier == "thorough":
         vecs += [cw.opts(use_push_pop_functions=True, tail_call_optimization=True), cw.opts(compact=True), cw.opts(remove_labels=True, generated_comments=True)]
     jobs, meta = [], []
     for n, s in progs:
         for v in (vecs if not n.startswith("iw_") else vecs[:1] + vecs[3:4]):
+            if v.get("original_code_as_comment") and v.get("remove_labels") and not (n.startswith(("nf_", "br_", "ed_")) or tier == "thorough"):
+                continue
             jobs.append({"src": s, "options": v})
             meta.append((n, s, v))
     res = cw.compile_many(jobs)
